@@ -164,15 +164,15 @@ func (pi *PkgInfo) importNamed(name string) *types.Package {
 	return pi.imports[name]
 }
 
-func (pi *PkgInfo) findDefine(w *World, name string) *Define {
+func (pi *PkgInfo) findDefine(w *World, name string) (*Define, *PkgInfo) {
 	if pi != nil && pi.cf != nil {
 		if d, ok := pi.cf.Defines[name]; ok {
-			return d
+			return d, pi
 		}
 	}
 	if w.common != nil {
 		if d, ok := w.common.Defines[name]; ok {
-			return d
+			return d, pi
 		}
 	}
 	// qualified define  alias.name -> define in that package's contract file
@@ -180,12 +180,12 @@ func (pi *PkgInfo) findDefine(w *World, name string) *Define {
 		if ip := pi.imports[name[:k]]; ip != nil {
 			if op := w.byTypes[ip]; op != nil && op.cf != nil {
 				if d, ok := op.cf.Defines[name[k+1:]]; ok {
-					return d
+					return d, op
 				}
 			}
 		}
 	}
-	return nil
+	return nil, nil
 }
 
 // evalType resolves a Go type expression in the scope of one of the package's files.
